@@ -5,7 +5,8 @@
    state what does hold (bounded = finite domain, the bound is part of the statement).
    args_unchanged: value parameters cannot change in a functional model (a function cannot modify its argument);
    the harness checks it on the real code by printing every argument after the call.
-   GENERATED by /tmp-style helper from the lemma statements (Check output); do not edit the statements by hand. *)
+   The statements below are the full statements of the lemmas of coq/Lib/*Proofs.v (as printed by Check); every theorem with
+   hypotheses is followed by a non-vacuity Example that applies it to concrete arguments with all hypotheses discharged. *)
 From Coq Require Import List ZArith Bool Lia Permutation Sorted.
 From DDP Require Import Lib.Base Lib.BaseProofs Lib.ListFns Lib.ListProofs Lib.NumFns Lib.NumProofs Lib.SortFns Lib.SortProofs Lib.TextFns Lib.TextProofs.
 Import ListNotations.
